@@ -809,7 +809,10 @@ class Sim:
                 K = inp.full[tuple(int(k == 0) for k in range(inp.npert))]
                 expr = expr + (Fsim(xs[0]) - poly) * K
             self.H = expr
-            self.kw["symbols"] = list(xs)
+            if not (world.get("infer_symbols") and env.active):
+                # (the executed world may leave `symbols` to the library: all free symbols, ordered by name; the oracle
+                # computation always names them)
+                self.kw["symbols"] = list(xs)
             self.h_is_series = False
         else:
             raise ValueError(fmt)
@@ -1916,6 +1919,8 @@ class GraphProp:
             extra["tmp_args"] = True
         if fmt == "sympy_expr" and r.random() < 0.5:
             extra["fdiff_fn"] = True
+        if fmt == "sympy_expr" and r.random() < 0.5:
+            extra["infer_symbols"] = True
         if any(sp.get("solver") == "custom" for sp in comps) and r.random() < 0.5:
             extra["solver_sig"] = r.choice(["varargs", "varargs", "callable", "partial"])
         if ncomp >= 2 and r.random() < profile.get("p_chain", 0.2) and fmt != "scalar_vecs" or (ncomp >= 2 and profile.get("p_chain", 0.2) >= 1):
